@@ -568,6 +568,8 @@ def _verify_native(c, cname, cfg, Pnat, snap_n):
         cl = c.post(cfg, inp, obs)
         if obs.get('exc') is not None and obs['exc'] not in c.allowed_exceptions:
             cl = dict(cl); cl['no_exception'] = False
+        res['bounded_cases'] = int(obs.get('cases', 1) or 1) if isinstance(obs, dict) else 1
+        res['bounded_sample'] = {'config': cfg, 'cases': res['bounded_cases']}
         for k, v in cl.items():
             ok = v is True or (v is not False and bool(v))
             rec = {'label': k, 'kind': 'clause', 'result': 'discharged' if ok else 'failed', 'backend': 'bounded', 'model': {}, 'time': 0.0, 'path': 0}
@@ -694,3 +696,38 @@ def replay_inputs(cname, cfg, vals, label=None):
         return {'replayable': False, 'why': 'native replay crashed: %s: %s' % (type(e).__name__, e)}
     finally:
         core.CTX = saved
+
+
+
+def explorer_selftest():
+    """engine self-test run before every check: a function with three independent symbolic branches must be
+    explored along exactly 8 paths with 8 distinct results, an infeasible branch must not be explored, and a
+    false clause must be refuted.  Returns a list of problems (empty = fine)."""
+    problems = []
+    prefix = []
+    seen = []
+    n = 0
+    while True:
+        ctx = core.Ctx(prefix)
+        core.CTX = ctx
+        a = SNum(ctx.input_int('a')); b = SNum(ctx.input_int('b')); c = SNum(ctx.input_int('c'))
+        ctx.add(a.t >= 0, a.t <= 10)
+        r = 0
+        if a > 5: r += 1
+        if b > 0: r += 2
+        if c > 0: r += 4
+        if a > 20: r += 100           # infeasible
+        seen.append(r)
+        if n == 0:
+            ok = ctx.prove('selftest-true', SBool(a.t <= 10))
+            bad = ctx.prove('selftest-false', SBool(a.t <= 9))
+            if not ok or bad:
+                problems.append('solver self-test failed (valid clause: %s, invalid clause accepted: %s)' % (ok, bad))
+        n += 1
+        prefix = _next_prefix(ctx.trace)
+        core.CTX = None
+        if prefix is None or n > 64:
+            break
+    if sorted(seen) != list(range(8)):
+        problems.append('explorer self-test: expected 8 paths with results 0..7, got %r' % (sorted(seen),))
+    return problems
